@@ -109,3 +109,22 @@ Print Assumptions C12_forward_sort_is_code.
 Theorem C12_reverse_sort_is_code : forall a b, cmp_args G.gen_rev_lt a b = rev_lt a b.
 Proof. exact rev_lt_tie. Qed.
 Print Assumptions C12_reverse_sort_is_code.
+
+(* ---- the HTTP handler composed with factories, calculation and renderer (Http.v, Proofs/HttpProofs.v) ---- *)
+From TrV Require Import Params Http Proofs.HttpProofs Properties.Common.
+From TrV Require Import Spec Admissible Optimal Server Render Proofs.ServerInv Proofs.EndToEnd.
+
+Theorem C12_http_time_shift : forall (uuid_of : Params.str -> option nat) (dl : Z), forall sv sv' status ep kvs acc egr,
+  cache_inv (sv_data sv) (sv_cache sv) -> cache_inv (sv_data sv') (sv_cache sv') ->
+  sv_data sv' = Shift.shift_data dl (sv_data sv) ->
+  time_values_ok dl kvs ->
+  (forall c alt sid s, parse uuid_of (sv_data sv) ep kvs = POk (c, alt) -> cm_scen c = Some sid ->
+     find_scenario (sv_data sv) sid = Some s ->
+     let p := params_with sid c in
+     Shift.shift_dom (sv_data sv) s p (fst (ep_tables ep (q_fwd p) acc egr)) (snd (ep_tables ep (q_fwd p) acc egr)) dl = true /\
+     (ep <> EAccess -> Shift.shift_safe (sv_data sv) s p acc dl = true)) ->
+  fst (http_serve uuid_of sv' status ep (shift_kvs dl kvs) acc egr) =
+  shift_response dl (fst (http_serve uuid_of sv status ep kvs acc egr)).
+Proof. exact HttpProofs.http_time_shift. Qed.
+Print Assumptions C12_http_time_shift.
+
